@@ -145,6 +145,53 @@ theorem name_get? {s : Store} {n : Nat} (h : n ∈ s.map (·.1)) : ∃ sc, s.get
 theorem length_pos_of_get? {s : Store} {n : Nat} {sc : Schema} (h : s.get? n = some sc) : 0 < s.length :=
   List.length_pos_of_mem (get?_mem h)
 
+theorem set_names (s : Store) (n : Nat) (v : Schema) : (s.set n v).map (·.1) = s.map (·.1) := by
+  induction s with
+  | nil => rfl
+  | cons p s ih =>
+    obtain ⟨a, sc⟩ := p
+    rw [set_cons, List.map_cons, List.map_cons, ih]
+    by_cases h : a = n <;> simp [h]
+
+theorem get?_none_of_not_name {s : Store} {n : Nat} (h : n ∉ s.map (·.1)) : s.get? n = none := by
+  cases hg : s.get? n with
+  | none => rfl
+  | some sc => exact absurd (get?_name hg) h
+
+/-- two stores with the same (duplicate-free) names in the same order and the same lookups are equal -/
+theorem store_ext : ∀ (s1 s2 : Store), (s1.map (·.1)).Nodup → s1.map (·.1) = s2.map (·.1) →
+    (∀ n, s1.get? n = s2.get? n) → s1 = s2 := by
+  intro s1
+  induction s1 with
+  | nil => intro s2 _ hn _; cases s2 with
+    | nil => rfl
+    | cons _ _ => simp at hn
+  | cons p t1 ih =>
+    intro s2 hnd hn hg
+    cases s2 with
+    | nil => simp at hn
+    | cons q t2 =>
+      obtain ⟨a, x⟩ := p
+      obtain ⟨a', y⟩ := q
+      simp only [List.map_cons, List.cons.injEq] at hn
+      obtain ⟨haa, hn⟩ := hn
+      subst haa
+      simp only [List.map_cons, List.nodup_cons] at hnd
+      have hxy : x = y := by
+        have := hg a
+        rw [get?_cons, get?_cons] at this
+        simpa using this
+      subst hxy
+      congr 1
+      apply ih t2 hnd.2 hn
+      intro n
+      by_cases hna : a = n
+      · subst hna
+        rw [get?_none_of_not_name hnd.1, get?_none_of_not_name (hn ▸ hnd.1)]
+      · have := hg n
+        rw [get?_cons, get?_cons] at this
+        simpa [hna] using this
+
 
 /-! ### `unshiftAll` -/
 
@@ -490,6 +537,7 @@ structure Post (st : Store) (memo : List Nat) (st' : Store) (memo' : List Nat) :
   good : Good st0 st'
   mono : ∀ n, Done st0 st n → Done st0 st' n
   memo : ∀ n ∈ memo', n ∈ memo ∨ Done st0 st' n
+  names : st'.map (·.1) = st.map (·.1)
 
 /-- the memo entries that matter at depth `d` are expanded (deeper ones may be pending) -/
 def MemoOK (d : Nat) (st : Store) (memo : List Nat) : Prop :=
@@ -502,11 +550,11 @@ def cost (L : Nat) : Nat → Nat
 variable {st0}
 
 theorem Post.refl {st : Store} {memo : List Nat} (hgood : Good st0 st) : Post st0 st memo st memo :=
-  ⟨hgood, fun _ h => h, fun _ h => Or.inl h⟩
+  ⟨hgood, fun _ h => h, fun _ h => Or.inl h, rfl⟩
 
 theorem Post.trans {st st1 st2 : Store} {memo memo1 memo2 : List Nat}
     (h1 : Post st0 st memo st1 memo1) (h2 : Post st0 st1 memo1 st2 memo2) : Post st0 st memo st2 memo2 := by
-  refine ⟨h2.good, fun n h => h2.mono n (h1.mono n h), ?_⟩
+  refine ⟨h2.good, fun n h => h2.mono n (h1.mono n h), ?_, h2.names.trans h1.names⟩
   intro n hn
   rcases h2.memo n hn with h | h
   · rcases h1.memo n h with h' | h'
@@ -642,7 +690,8 @@ theorem inherit_step (h : WFS st0) (d : Nat) (ih : ∀ m, m ≤ d → MainStmt s
     have hres : ({ ut with kids := inh st0 ut.bases ++ ut0.kids } : Schema) = full st0 ut0 := by
       rw [full_eq h hg]; rcases hcase with rfl | rfl <;> rfl
     rw [hres] at hproc
-    refine ⟨st1.set b (full st0 ut0), memo1, ⟨good_set hpost.good hg, ?_, ?_⟩, ?_⟩
+    refine ⟨st1.set b (full st0 ut0), memo1,
+      ⟨good_set hpost.good hg, ?_, ?_, (set_names _ _ _).trans hpost.names⟩, ?_⟩
     · exact fun n hn => done_set hpost.good hg (hpost.mono n hn)
     · intro n hn
       rcases hpost.memo n hn with h' | h'
@@ -821,7 +870,8 @@ theorem processStore_run (h : WFS st0) (fuel : Nat) (hfuel : cost st0.length st0
       | some sc0 =>
         rcases process_store_type h fuel st memo n sc0 sc hgood hmemo hg0 hg hfuel with ⟨st1, memo1, hproc, hpost1⟩
         have hpost1' : Post st0 st memo (st1.set n (full st0 sc0)) memo1 := by
-          refine ⟨good_set hpost1.good hg0, fun m hm => done_set hpost1.good hg0 (hpost1.mono m hm), ?_⟩
+          refine ⟨good_set hpost1.good hg0, fun m hm => done_set hpost1.good hg0 (hpost1.mono m hm), ?_,
+            (set_names _ _ _).trans hpost1.names⟩
           intro m hm
           rcases hpost1.memo m hm with h' | h'
           · exact Or.inl h'
